@@ -6,6 +6,10 @@
 //!   checks info                                     print config / profile
 
 mod c01;
+mod c02;
+mod c03;
+mod c04;
+mod cat;
 mod lex;
 mod selftest;
 
@@ -70,6 +74,9 @@ type ReplayFn = fn(&Ctx, &Value) -> CaseResult;
 fn registry(property: &str) -> Option<(RunFn, ReplayFn)> {
     match property {
         "C01" => Some((c01::run, c01::replay)),
+        "C02" => Some((c02::run, c02::replay)),
+        "C03" => Some((c03::run, c03::replay)),
+        "C04" => Some((c04::run, c04::replay)),
         _ => None,
     }
 }
